@@ -90,7 +90,9 @@ impl Quantizer {
     ///
     pub fn convert(&mut self, v_in: f32) -> Conversion {
         // return early if vin is within the window of the last coversion plus a little hysteresis
-        if self.is_allowed(self.cached_conversion.note_num.into()) {
+        // the cached note number spans all octaves, only its pitch class decides whether it is still allowed
+        let cached_note = Note::new(self.cached_conversion.note_num % 12);
+        if self.is_allowed(cached_note) {
             let low_bound = self.cached_conversion.stairstep - HYSTERESIS;
             let high_bound = self.cached_conversion.stairstep + SEMITONE_WIDTH + HYSTERESIS;
 
